@@ -368,7 +368,8 @@ func executeInBubble(spec *RunSpec, res *RunResult) {
 	w.createFile("/tmp", true, "")
 	w.createFile("/home", true, "")
 	interp.VerifSim = w.Hooks()
-	defer func() { interp.VerifSim = nil }()
+	simWorld = w
+	defer func() { interp.VerifSim = nil; simWorld = nil }()
 
 	files := make([]*syntax.File, len(spec.Programs))
 	for i, src := range spec.Programs {
@@ -763,5 +764,9 @@ func (r *RunResult) digest() string {
 	parts = append(parts, []byte(fmt.Sprint(r.Steps, r.SimTime, r.Hang, r.Cancelled, r.CancelAtStep, r.StepsAfterCancel)))
 	return kit.Digest(parts...)
 }
+
+// simWorld is the world of the run in progress (one run at a time per
+// process); simulated commands use it to announce goroutines they start.
+var simWorld *World
 
 var _ = os.Getenv
